@@ -251,10 +251,16 @@ WindowOK(e) ==
        /\ e.if1 = (IF e.api = "disable;enable" THEN 1 ELSE e.if0)
        /\ [k \in 1 .. Len(e.instrs) |-> e.instrs[k].m] = (IF opened THEN << "cli", "sti" >> ELSE << >>)
 
+RECURSIVE SumW(_, _)
+SumW(ws, n) == IF n = 0 THEN ZeroW ELSE Add(SumW(ws, n - 1), ws[n]).v
+
 Check(e) ==
     CASE e.op = "port_block" -> PortBlockOK(e)
       [] e.op = "reg" -> RegOK(e)
       [] e.op = "window" -> WindowOK(e)
+      [] e.op = "closure_result" ->     \* C17: the closure's result comes back unchanged
+            /\ \A i \in 1 .. 16 : e.words[i] = Add(e.seed, W(i - 1)).v
+            /\ e.sum = SumW(e.words, 16) /\ e.sum2 = e.sum /\ e.sum3 = e.sum /\ e.en = e.if
       [] e.op = "pcid_new" -> e.ok = (IF e.x < 4096 THEN 1 ELSE 0)
       [] e.op = "reg_seq" ->
             LET m == e.mask  a == e.p[1]  b == e.p[2]
@@ -278,6 +284,9 @@ Check(e) ==
             /\ e.instrs[2].m = "rdmsr" /\ e.instrs[2].a = GsBaseMsr
       [] e.op = "rflags_rt" ->     \* the ID flag (bit 21) written is the ID flag read back
             /\ Bit(e.r[2], 21) # Bit(e.r[1], 21) /\ Bit(e.r[3], 21) = Bit(e.r[1], 21)
+      [] e.op = "rflags_redzone" ->     \* locals of the caller survive the accessors: sum of seed + i, i < 16
+            /\ e.r[1] = SumW([i \in 1 .. 16 |-> Add(e.seed, W(i - 1)).v], 16)
+            /\ Bit(e.r[3], 21) # Bit(e.r[2], 21)
       [] e.op = "mxcsr_rt" -> e.got = e.v /\ e.ind = e.v
       [] e.op = "dr7_rt" -> e.got = e.want /\ e.got_flags = e.flags     \* DR7 fields written are read back
       [] e.op = "mxcsr_upd" -> e.got = e.v /\ e.seen = e.saved
